@@ -1,4 +1,6 @@
 ---- MODULE MCPoolFork ----
 EXTENDS PoolFork
 McTx == {"x", "y", "z"}
+\* one transaction that expires in the first epoch, two that are only valid in (and live until) the second
+McTxEp == [t \in McTx |-> IF t = "x" THEN 0 ELSE 1]
 ====
